@@ -62,6 +62,7 @@ func runC09(c *Ctx) {
 	p := c.P
 	// clause shared with C03: a reported error is the outcome the client sees (see DESIGN.md section 6a)
 	defer c.ImportRules("C03", "C03.14")
+	defer c.ImportRules("C04", "C04.8")
 	reach := p.RequestTimeReach()
 	rwReport := p.MustFunc("(*responseWriter).reportError")
 	rwReportEnd := p.MustFunc("(*responseWriter).reportEnd")
